@@ -35,6 +35,7 @@ def check(tier, seed):
     with C.WorkDir('C08') as wd:
         C.audit_sources()
         C.props_obligations(res, 'C08', wd)
+        C.tie_b_items(res, wd)
         a_ = list(res.assumption_lines)
         C.props_obligations(res, 'C08b', wd)
         res.assumption_lines = a_ + res.assumption_lines
